@@ -71,6 +71,11 @@ def close(real, exact, allow_wrap):
     return False
 
 
+# legal spellings of an index collection (the configuration accepts any iterable of integers)
+CONTAINERS = {"list": list, "array": lambda v: np.array(v), "tuple": tuple, "set": set, "frozenset": frozenset, "keys": lambda v: dict.fromkeys(v).keys(),
+              "npint-list": lambda v: [np.int64(i) for i in v], "i32-array": lambda v: np.array(v, dtype=np.int32), "u8-array": lambda v: np.array(v, dtype=np.uint8),
+              "reversed-list": lambda v: list(v)[::-1], "repeated-list": lambda v: list(v) + list(v)}
+
 SENT_IN = 0.5
 SENT_OUT = (-3.25, 7.5)
 
@@ -90,7 +95,10 @@ def run_block(case):
     variants = [(per or None, ref or None)]
     if not per or not ref:
         variants.append((per if per else [], ref if ref else []))  # empty lists instead of None
-    variants = [(np.array(p) if (p and case["as_array"]) else p, np.array(r) if (r and case["as_array"]) else r) for p, r in variants]
+    cont = CONTAINERS[case.get("container") or ("array" if case["as_array"] else "list")]
+    variants = [(cont(p) if p else p, cont(r) if r else r) for p, r in variants]
+    if case.get("container") and case.get("v") is None:
+        V = V[::case.get("stride", 1)]
     for j in range(d):
         for v in V:
             for sent in ((SENT_IN,) + SENT_OUT if roles[j] != "s" else (SENT_IN,)):
@@ -261,5 +269,18 @@ def plan(ctx):
     if not th:
         ctx.notes.append("quick: for d=3 two-dimensional arrays only every third role assignment (rotated by VERIF_SEED); everything else complete")
     ctx.explore("structured-double-lattice", cases)
+    # the same lattice (every 4th value; every value in thorough) with every other legal spelling of the index collections
+    cc = []
+    for d in (1, 2, 3):
+        for roles in itertools.product("spr", repeat=d):
+            if set(roles) == {"s"}:
+                continue
+            for k, cname in enumerate(c for c in CONTAINERS if c not in ("list", "array")):
+                two_d = bool((k + len(cc)) % 2)
+                if not th and d == 3 and (hash((roles, cname)) + ctx.seed) % 3:
+                    continue
+                cc.append({"kind": "block", "d": d, "roles": list(roles), "two_d": two_d, "as_array": False, "container": cname, "stride": 1 if th else 4})
+    ctx.bounds["index_collection_spellings"] = list(CONTAINERS)
+    ctx.explore("index-collection-spellings", cc)
     # each case runs in ONE process in a fixed order, so state leaking between kernel instances is part of the explored history
     ctx.explore("kernel-usage-of-the-maps", [{"kind": "usage", "kernel": k, "A": None} for k in ("rwm", "tpcn")])
